@@ -311,13 +311,19 @@ fn rand_headers(rng: &mut StdRng) -> Option<HashMap<String, String>> {
     }
     let mut h = HashMap::new();
     for _ in 0..rng.gen_range(0..4) {
-        h.insert(format!("k{}", rng.gen::<u16>()), format!("v{}", rng.gen::<u32>()));
+        // header names and values are arbitrary strings: include multi-byte characters
+        let deco = ["", "é", "中文", "naïve-€", "\u{1F600}", "ß∂"][rng.gen_range(0..6)];
+        if rng.gen_bool(0.5) {
+            h.insert(format!("k{}{}", rng.gen::<u16>(), deco), format!("v{}", rng.gen::<u32>()));
+        } else {
+            h.insert(format!("k{}", rng.gen::<u16>()), format!("{}v{}{}", deco, rng.gen::<u32>(), deco));
+        }
     }
     Some(h)
 }
 fn rand_ops(rng: &mut StdRng) -> Vec<Operation> {
     (0..rng.gen_range(0..3))
-        .map(|i| if i % 2 == 0 { Operation::Map(format!("/m/{}", rng.gen::<u16>())) } else { Operation::Filter(format!("/f/{}", rng.gen::<u16>())) })
+        .map(|i| if i % 2 == 0 { Operation::Map(format!("/m/{}é", rng.gen::<u16>())) } else { Operation::Filter(format!("/f/中{}", rng.gen::<u16>())) })
         .collect()
 }
 /// a real frame whose payload length is 0 (abstract 0), exactly `target` (abstract MaxLen maps to
